@@ -366,10 +366,11 @@ def instrument(world, b):
 PTYPES = [plugins.component, plugins.combiner, plugins.condition, plugins.incident, plugins.fact]
 
 
-def gen_spec(rng, n, fault_rate=0.25, with_points=True, with_ignore=False, seeded=()):
+def gen_spec(rng, n, fault_rate=0.25, with_points=True, with_ignore=False, seeded=(), islands=1):
     spec = []
+    isl = [rng.randrange(islands) for _ in range(n)]     # components of different islands never depend on each other
     for cid in range(n):
-        lower = list(range(cid))
+        lower = [j for j in range(cid) if isl[j] == isl[cid]]
         r = rng.random()
         multi_ds = [j for j in lower if spec[j]["kind"] == "datasource" and spec[j]["body"].startswith("m")]
         ds = [j for j in lower if spec[j]["kind"] in ("datasource", "point")]
